@@ -2,6 +2,7 @@ package filepool
 
 import (
 	"fmt"
+	"os"
 	"testing"
 
 	"pgregory.net/rapid"
@@ -330,15 +331,75 @@ func sectorClass(n int) string {
 	}
 }
 
-const faultRule = "fault enumeration inside generated scenarios: a scenario of 1..20 steps (same generator and oracle as filepool-model) is run fault-free while numbering every fallible call the pool makes (device ReadAt/WriteAt, hole source ReadAt/GetNextRegionOffset/Truncate/Close, base-pool NewFile under the quota layer, AllocateContiguous), then re-run once per (call index x fault kind: error, short transfer, injected exhaustion, one-sector allocation). During the faulted step an error result is accepted and the model follows the reported counts; a failed Truncate must leave the file in one of the enumerated permissible states (untouched, or - only when the hole source's Truncate is what failed - everything done except that), compared byte for byte; every other step is checked exactly; after each run everything is closed and the full capacity (sectors, file quota, byte quota) must be obtainable again. One evaluation = one (scenario, fault) run. Non-trivial: the injected fault surfaced as an error of the API call; distinct by hash of scenario+fault"
+const faultRule = "fault enumeration inside generated scenarios: a scenario of 1..20 steps (thorough tier: a third of them 21..40 steps; same generator and oracle as filepool-model, including the per-step quota probe and the hole-source-closed-exactly-once check) is run fault-free while numbering every fallible call the pool makes (device ReadAt/WriteAt, hole source ReadAt/GetNextRegionOffset/Truncate/Close, base-pool NewFile under the quota layer, AllocateContiguous), then re-run once per (call index x fault kind: error, short transfer with the error io.ReaderAt/io.WriterAt require - also from the hole source -, injected exhaustion, one-sector allocation). Two-fault runs: for drawn single-fault runs a second fault is injected at a drawn later call of THAT run (half of them within the next three calls), 2 pairs per scenario in the quick tier and up to 12 in the thorough tier. During a faulted step an error result is accepted and the model follows the reported counts; a failed Truncate must leave the file in one of the enumerated permissible states (untouched, or - only when the hole source's Truncate is what failed - everything done except that), compared byte for byte; every other step is checked exactly; after each run everything is closed and the full capacity (sectors, file quota, byte quota) must be obtainable again. One evaluation = one (scenario, fault set) run. Non-trivial: an injected fault surfaced as an error of the API call; distinct by hash of scenario+faults"
+
+func thoroughTier() bool { return os.Getenv("VERIF_TIER") == "thorough" }
+
+// runFaulted replays the steps of a scenario on a fresh pool with the
+// given faults injected and checks every step and the final capacity.
+func runFaulted(cfg config, steps []step, faults []faultSpec) (*engine, script, error) {
+	plan := &faultPlan{faults: faults}
+	e := newEngine(cfg, plan)
+	fsc := script{Cfg: cfg, Faults: faults}
+	for _, op := range steps {
+		st := op
+		st.Res = ""
+		err := e.apply(&st)
+		fsc.Steps = append(fsc.Steps, st)
+		if err != nil {
+			return e, fsc, err
+		}
+	}
+	if len(plan.fired) != len(faults) {
+		return e, fsc, fmt.Errorf("harness: %d of the faults %+v fired on replay (%+v)", len(plan.fired), faults, plan.fired)
+	}
+	for k, f := range faults {
+		if plan.fired[k].Index != f.Index || plan.fired[k].Site != f.Site {
+			return e, fsc, fmt.Errorf("harness: fault %+v hit %+v on replay", f, plan.fired[k])
+		}
+	}
+	if err := e.finish(); err != nil {
+		return e, fsc, err
+	}
+	return e, fsc, nil
+}
+
+func faultLabels(e *engine, faults []faultSpec) []string {
+	var labels []string
+	if len(faults) == 1 {
+		labels = append(labels, faults[0].Site+":"+faults[0].Kind)
+	} else {
+		labels = append(labels, "two-faults", "second:"+faults[1].Site+":"+faults[1].Kind)
+	}
+	if e.st.faultSurfaced {
+		labels = append(labels, "fault-surfaced")
+	}
+	if e.st.truncFailedUntouched {
+		labels = append(labels, "truncate-failed:file-untouched")
+	}
+	if e.st.truncFailedHalfDone {
+		labels = append(labels, "truncate-failed:hole-source-not-truncated")
+	}
+	if e.st.hsClosed {
+		labels = append(labels, "hole-source-closed-once-checked")
+	}
+	return labels
+}
 
 func TestC15FilePoolFaults(t *testing.T) {
 	rec := simkit.NewRecorder(t, "C15", "filepool-faults", faultRule)
+	maxPairs := 2
+	if thoroughTier() {
+		maxPairs = 12
+	}
 	rapid.Check(t, func(rt *rapid.T) {
 		cfg := drawConfig(rt)
 		g := &gen{e: newEngine(cfg, noFaults())}
 		sc := script{Cfg: cfg}
 		n := rapid.IntRange(1, 20).Draw(rt, "steps")
+		if thoroughTier() && rapid.IntRange(0, 2).Draw(rt, "long") == 0 {
+			n += 20
+		}
 		for i := 0; i < n; i++ {
 			var st step
 			if i == 0 {
@@ -358,38 +419,56 @@ func TestC15FilePoolFaults(t *testing.T) {
 		}
 		rec.Case(sc, false, "fault-free-run")
 
+		// Every single fault. The calls each faulted run makes are kept:
+		// a second fault is numbered in the run that has the first one.
+		type single struct {
+			f     faultSpec
+			sites []string
+		}
+		var singles []single
 		for idx, site := range sites {
 			for _, kind := range faultKinds[site] {
-				plan := &faultPlan{failAt: idx, kind: kind}
-				e := newEngine(cfg, plan)
-				fsc := script{Cfg: cfg, Fault: &faultSpec{Index: idx, Site: site, Kind: kind}}
-				for _, op := range sc.Steps {
-					st := op
-					st.Res = ""
-					err := e.apply(&st)
-					fsc.Steps = append(fsc.Steps, st)
-					if err != nil {
-						rt.Fatalf("%v; script=%s", err, fsc)
-					}
-				}
-				if !plan.fired || plan.sites[idx] != site {
-					rt.Fatalf("harness: fault %d (%s) did not fire on replay; script=%s", idx, site, fsc)
-				}
-				if err := e.finish(); err != nil {
+				f := faultSpec{Index: idx, Site: site, Kind: kind}
+				e, fsc, err := runFaulted(cfg, sc.Steps, []faultSpec{f})
+				if err != nil {
 					rt.Fatalf("%v; script=%s", err, fsc)
 				}
-				labels := []string{site + ":" + kind}
-				if e.st.faultSurfaced {
-					labels = append(labels, "fault-surfaced")
-				}
-				if e.st.truncFailedUntouched {
-					labels = append(labels, "truncate-failed:file-untouched")
-				}
-				if e.st.truncFailedHalfDone {
-					labels = append(labels, "truncate-failed:hole-source-not-truncated")
-				}
-				rec.Case(fsc, e.st.faultSurfaced, labels...)
+				rec.Case(fsc, e.st.faultSurfaced, faultLabels(e, fsc.Faults)...)
+				singles = append(singles, single{f: f, sites: e.plan.sites})
 			}
+		}
+
+		// Some pairs of faults: a first one after which the run still
+		// makes fallible calls, and one of those calls.
+		var eligible []single
+		for _, s := range singles {
+			if len(s.sites)-1-s.f.Index >= 1 {
+				eligible = append(eligible, s)
+			}
+		}
+		if len(eligible) == 0 {
+			rec.Label("two-faults:no-call-after-any-first-fault")
+			return
+		}
+		pairs := maxPairs
+		if pairs > len(eligible) {
+			pairs = len(eligible)
+		}
+		for k := 0; k < pairs; k++ {
+			first := eligible[rapid.IntRange(0, len(eligible)-1).Draw(rt, "firstFault")]
+			later := len(first.sites) - 1 - first.f.Index // calls made after the first fault
+			d := rapid.IntRange(1, later).Draw(rt, "secondFaultDistance")
+			if later > 3 && rapid.Bool().Draw(rt, "secondFaultNear") {
+				d = 1 + d%3
+			}
+			idx2 := first.f.Index + d
+			site2 := first.sites[idx2]
+			second := faultSpec{Index: idx2, Site: site2, Kind: rapid.SampledFrom(faultKinds[site2]).Draw(rt, "secondFaultKind")}
+			e, fsc, err := runFaulted(cfg, sc.Steps, []faultSpec{first.f, second})
+			if err != nil {
+				rt.Fatalf("%v; script=%s", err, fsc)
+			}
+			rec.Case(fsc, e.st.faultSurfaced, faultLabels(e, fsc.Faults)...)
 		}
 	})
 }
